@@ -192,7 +192,7 @@ int main(int argc, char **argv) {
             })));
             return c;
         });
-        ok = run_cases(a, ev, "c15-several-automata", a.n(100000, 2000000), 100, gen, run_any);
+        ok = run_cases(a, ev, "c15-several-automata", a.n(200000, 2000000), 100, gen, run_any);
     }
     ev.write(a.out);
     return ok ? 0 : 1;
